@@ -1300,7 +1300,7 @@ theorem activateOne_inv {s : State} (gen2 : Bool) (k : Nat × Nat) (hL : LInv s)
               · rename_i s1 hg
                 split
                 · exact (viaGet m hg).2
-                · exact (viaGet m hg).1
+                · exact same
             · exact same
         · split
           · split
@@ -1330,16 +1330,15 @@ theorem activate_inv (gen2 : Bool) (keys : List (Nat × Nat)) : ∀ {s : State},
       exact ⟨a', b', c.trans c'⟩
 
 /-- What a start decision can do to one entry: nothing; or (debt) raise the active flag when `netFees ≤ debtThreshold − lot`;
-or (surplus) take exactly the lot through `GetAmountFromCollector` when `netFees ≥ surplusThreshold + lot`, raising the flag
-unless (second generation, English auctions not activated) the sweep aborts after the lot has left. -/
+or (surplus) take exactly the lot through `GetAmountFromCollector` when `netFees ≥ surplusThreshold + lot` and raise the flag
+(second generation with English auctions not activated: the kick-off fails after the lot has left and is rolled back — nothing). -/
 theorem activateOne_spec (s : State) (gen2 : Bool) (k : Nat × Nat) :
     (activateOne s gen2 k).1 = s ∨
     (∃ m c, Store.get s.amap k = some m ∧ Store.get s.collk k = some c ∧ m.active = false ∧ k.1 ∉ s.killOn ∧
         (gen2 = false → k.1 ∉ s.esmOn) ∧
       ((m.debt = true ∧ fee s k ≤ c.debtThr - c.lot ∧ (activateOne s gen2 k).1 = setActive s k m) ∨
        (m.surplus = true ∧ c.surplusThr + c.lot ≤ fee s k ∧ ∃ s1, getAmount s k c.lot = some s1 ∧
-          ((activateOne s gen2 k).1 = setActive s1 k m ∨
-           (gen2 = true ∧ k.1 ∉ s.englishOn ∧ (activateOne s gen2 k) = (s1, true)))))) := by
+          (activateOne s gen2 k).1 = setActive s1 k m))) := by
   unfold activateOne
   split
   · exact Or.inl rfl
@@ -1367,10 +1366,8 @@ theorem activateOne_spec (s : State) (gen2 : Bool) (k : Nat × Nat) :
               · rename_i s1 hg
                 split
                 · exact Or.inr ⟨m, c, hm, hc, hact', hkill, fun e => by simp [hg2] at e,
-                    Or.inr ⟨hsur.2, by rw [hfee]; exact hsur.1, s1, hg, Or.inl rfl⟩⟩
-                · rename_i heng
-                  exact Or.inr ⟨m, c, hm, hc, hact', hkill, fun e => by simp [hg2] at e,
-                    Or.inr ⟨hsur.2, by rw [hfee]; exact hsur.1, s1, hg, Or.inr ⟨hg2, heng, rfl⟩⟩⟩
+                    Or.inr ⟨hsur.2, by rw [hfee]; exact hsur.1, s1, hg, rfl⟩⟩
+                · exact Or.inl rfl
             · exact Or.inl rfl
         · rename_i hg2
           have hg2' : gen2 = false := by simpa using hg2
@@ -1384,7 +1381,7 @@ theorem activateOne_spec (s : State) (gen2 : Bool) (k : Nat × Nat) :
               · exact Or.inl rfl
               · rename_i s1 hg
                 exact Or.inr ⟨m, c, hm, hc, hact', hkill, fun _ => hesm',
-                  Or.inr ⟨hsur, by rw [hfee]; exact hthr, s1, hg, Or.inl rfl⟩⟩
+                  Or.inr ⟨hsur, by rw [hfee]; exact hthr, s1, hg, rfl⟩⟩
             · exact Or.inl rfl
           · split
             · rename_i hdebt
